@@ -449,21 +449,20 @@ def judgeScript (pid : String) (inp obs : Json) : Except String Verdict := do
     idx := idx + 1
   if agree then
     let s' := s.settle
-    -- background operations: what the model completed vs what the implementation reported
+    -- background operations never joined: resolve them now, in issue order, with the result
+    -- the implementation reported at the end of the script
+    let mut fin := s'
     for (i, r) in late do
       if agree && i < ops.length then
         let op := ops[i]!
-        let e := s'.getEnd op.x
+        let e := fin.getEnd op.x
         if op.kind == .readbg then
-          match e.done.find? (·.1 == i), r with
-          | some (_, .data p n), .data p' n' =>
-            if p != p' || n != n' then agree := false; why := s!"op {i}: background Read: model data differs"
-          | some (_, .err me), .err k =>
-            if !errOk me k then agree := false; why := s!"op {i}: background Read: model error {me.name}, implementation {k}"
-          | some (_, .enomem), .err "enomem" => pure ()
-          | none, .blocked => pure ()
-          | some _, r => agree := false; why := s!"op {i}: background Read completes in the model, implementation {r.show}"
-          | none, r => agree := false; why := s!"op {i}: background Read stays blocked in the model, implementation {r.show}"
+          match e.pend.find? (·.op == i) with
+          | none => pure ()     -- joined during the script
+          | some p =>
+            match e.readSeen p.h p.blen p.bcap r with
+            | .ok e' => fin := fin.setEnd op.x { e' with pend := e'.pend.filter (·.op != i) }
+            | .error m => agree := false; why := s!"op {i} (background Read, at the end): {m}"
         else if op.kind == .acceptbg then
           match e.doneAcc.find? (·.1 == i), r with
           | some (_, .conn h), .conn h' => if h != h' then agree := false; why := s!"op {i}: Accept: model conn {h}, implementation {h'}"
